@@ -173,16 +173,10 @@ def s4(ck, an):
     lat = fst.calls_to("TradingEnv._process_latent_events")
     mk = fst.calls_to("PortfolioSpace.make_rebalancing_request")
     ord_before(ck, fst, "S4.lead-resolved-at-execution-time", lat, mk, "_process_latent_events() (which advances the clock)", "building the request (which resolves the chain's lead)")
+    # the old lead (held, no longer targeted) is always closed, however small: the decision table of the trade loop (C12) says so
+    from rules import C12, ledger
+    C12.run(ledger._Only(Renamed(ck, "S4:"), {"exempts-untargeted", "threshold-strict"}), an, "quick")
     fa = an.fa("Rebalancing.make_trades")
-    found = False
-    for n in walk_function(fa.f.node):
-        if isinstance(n, ast.Continue):
-            for p in fa.syntactic_guards(n):
-                for a in ([p] if p[0] != "and" else p[1]):
-                    if a[0] == "in" and a[3] and a[2] == "self.allocation":
-                        found = True
-    ck.check(found, "GUARD", "S4.untargeted-exempt-from-threshold", fa.f.short, fa.f.loc, "the threshold skip requires `contract in self.allocation`: the old lead (held, no longer targeted) is always closed",
-             "the threshold skip does not require membership in the target allocation: a small position in the old lead would not be closed at the roll", construct="contract in self.allocation")
     # imbalance includes current holdings (so the old lead appears with -holding): C03-S2
     from rules import C03
     C03.s2(Renamed(ck, "C03:"), an)      # under `absolute` the imbalance is target contracts - NrContracts(current holdings), by value id
